@@ -127,10 +127,14 @@ def _ctx_kind(a, b, owner=None):
     if _has_outer(b) and not _has_outer(a):
         return 'ctx-outer', owner
     if a is not None and b is not None and a[:3] == b[:3]:
-        # same exception in the slot: look where their own chains differ
+        # same exception in the slot: look where their own chains differ (context first, then cause)
         (ca, ka), (cb, kb) = _ctx_of(a), _ctx_of(b)
-        if ka != kb and ca == cb:
+        if ka != kb:
             return _ctx_kind(ka, kb, a[1])
+        if ca != cb and ca is not None and cb is not None and ca[:3] == cb[:3]:
+            (_, kca), (_, kcb) = _ctx_of(ca), _ctx_of(cb)
+            if kca != kcb:
+                return _ctx_kind(kca, kcb, ca[1])
     return 'ctx-other', owner
 
 
@@ -225,7 +229,9 @@ def mechanism(body, hist, te, tg):
         return 'send-nonnone-unstarted-finishes', info
     # (C5) StopIteration thrown while delegating to an iterator without throw(): CPython 3.12 lets `yield from`/`await`
     # take it as the delegate's result, compiled code raises it at the delegation point
-    if is_throw and oparg in ('SI', 'SIi') and deleg_kind in THROWLESS and 'other' in kinds:
+    throwless_somewhere = unknown and any(('deleg:' + x) in body.get('feat', ()) or ('await:' + x) in body.get('feat', ())
+                                          for x in THROWLESS)
+    if is_throw and oparg in ('SI', 'SIi') and (deleg_kind in THROWLESS or throwless_somewhere):
         return 'throw-stopiteration-into-throwless-delegate', info
     # (K) close()/finalisation of a generator that answers GeneratorExit by *returning a value*
     if is_exit and got_ignored and not exp_ignored and 'return-value-in-handler' in body.get('feat', ()):
@@ -273,7 +279,7 @@ def mechanism(body, hist, te, tg):
                     return 'delegate-exception-context-in-handler'
             if fk == 'ctx-missing':
                 # (F) suspended by a yield inside a finally clause that runs because of an exception
-                if in_finally:
+                if in_finally or unknown:
                     return 'yield-in-finally-clears-exc-info'
                 # (B1) the exception thrown in (or GeneratorExit) does not get the generator's handled exception as context
                 if (is_throw or is_exit) and owner in (THROWN_NAME.get(oparg), 'GeneratorExit', 'log'):
@@ -456,7 +462,12 @@ def main(ck):
                 # a watchdog firing is never a verdict (the machine may simply be overloaded)
                 ck.inconclusive_if(True, 'watchdog fired while driving %s with %s' % (b['name'], c['case']['h']))
                 continue
-            ck.discrepancy('crash:%s' % b['kind'], 'crash/hang %s driving %s with %s' % (c['kind'], b['name'], c['case']['h']),
+            ckey = 'crash:%s' % b['kind']
+            if 'bare-raise' in b['feat'] and any(x in b['feat'] for x in ('return-in-finally', 'return', 'break', 'continue')):
+                # see C22 (crash-jump-out-of-except-clause-after-bare-raise): a bare 'raise' hands the handler's exception
+                # variables over; a later return/break/continue out of that except clause DECREFs them again
+                ckey = 'crash-jump-out-of-except-clause-after-bare-raise'
+            ck.discrepancy(ckey, 'crash/hang %s driving %s with %s' % (c['kind'], b['name'], c['case']['h']),
                            dict(witness(b, c['case'], None, None, {}), stderr=c['stderr']))
         for ft in res.fatal:
             ck.inconclusive_if(True, 'driver failed for %s: %s' % (mname, str(ft)[-400:]))
